@@ -7,7 +7,7 @@
    that precede the last instruction. *)
 From Coq Require Import Sorted.
 From VF Require Import Base.Prelude Gen.Enums Model.Graph Gen.InstChecks Model.Insts
-     Proofs.ListFacts Proofs.InstsSane Proofs.InstsCover Proofs.GroupNest Proofs.GroupLists.
+     Proofs.ListFacts Proofs.InstsSane Proofs.InstsCover Proofs.GroupNest Proofs.GroupLists Spec.Interleave.
 
 Definition at_depth (cs : list o2t) (groups : list (list (list Z))) (d : nat) (i : inst) : Prop :=
   exists lv g, nth_opt groups d = Some lv /\ In g lv /\ op_image cs g (i_consumers i).
@@ -129,4 +129,29 @@ Proof.
     - inversion Ss; subst. apply IH. assumption. }
   destruct Ha as (lv & g & Hd & Hin & Him). destruct Hb as (lv' & g' & Hd' & Hin' & Him').
   exact (consumer_lists_nested_or_disjoint p groups a b da db lv lv' g g' Hg Hinj Hle Hd Hd' Hin Hin' Him Him').
+Qed.
+
+(* ---- `inj_ops` decided: no operator occurs twice among the consumer entries ---- *)
+Definition inj_opsb (cs : list o2t) : bool := nodupZ (map o2t_op cs).
+Lemma nodupZ_NoDup l : nodupZ l = true -> NoDup l.
+Proof.
+  induction l as [|x l IH]; intros H; [constructor|]. cbn [nodupZ] in H. apply andb_true_iff in H. destruct H as [A B].
+  constructor; [|apply IH; exact B]. intros Hin. apply memZ_In in Hin. rewrite Hin in A. discriminate.
+Qed.
+Lemma py_index_nth {A} (l : list A) i a : 0 <= i -> py_index l i = Ok a -> nth_error l (Z.to_nat i) = Some a.
+Proof.
+  unfold py_index. intros Hi. destruct (i <? 0) eqn:E; [apply Z.ltb_lt in E; lia|].
+  intros H. rewrite <- nth_opt_nth_error.
+  repeat match type of H with context [if ?c then _ else _] => destruct c; try discriminate end.
+  destruct (nth_opt l (Z.to_nat i)); inversion H; reflexivity.
+Qed.
+Theorem inj_opsb_sound cs : inj_opsb cs = true -> inj_ops cs.
+Proof.
+  unfold inj_opsb, inj_ops. intros H i j ci cj Hi Hj Ei Ej Eop. apply nodupZ_NoDup in H.
+  apply py_index_nth in Ei; [|exact Hi]. apply py_index_nth in Ej; [|exact Hj].
+  assert (Hl : (Z.to_nat i < length (map o2t_op cs))%nat).
+  { rewrite map_length. apply nth_error_Some. rewrite Ei. discriminate. }
+  assert (E : nth_error (map o2t_op cs) (Z.to_nat i) = nth_error (map o2t_op cs) (Z.to_nat j)).
+  { rewrite !nth_error_map, Ei, Ej. cbn. f_equal. exact Eop. }
+  pose proof (proj1 (NoDup_nth_error _) H _ _ Hl E). lia.
 Qed.
